@@ -98,3 +98,19 @@ Example C18_nonvacuous :
   sections_of 0 eps <> [] /\ ketama_answers eps 3 6%Z = Some [2; 3; 1]
   /\ simple_getn (simple_ring [30; 10; 20]%Z) 7%Z 1 = Some 30%Z.
 Proof. split; [discriminate|]. split; vm_compute; reflexivity. Qed.
+
+(* Non-vacuity of the order-independence theorem: a permutation of four endpoints
+   in two zones with collision-free hashes; both sides evaluate to the same answer. *)
+Example C18_order_nonvacuous :
+  let eps := [(0, [5; 11]); (1, [3; 9]); (0, [7; 2]); (1, [8; 1])]%Z in
+  let perm := [2; 0; 3; 1] in
+  Permutation perm (seq 0 (length eps)) /\
+  NoDup (map s_hash (sections_of 0 eps)) /\ sections_of 0 eps <> [] /\
+  ketama_answers (permute (0%Z, []) eps perm) 3 6%Z = Some [0; 2; 3] /\
+  ketama_answers eps 3 6%Z = Some [2; 3; 1].
+Proof.
+  split; [|split; [|split; [discriminate|split; vm_compute; reflexivity]]].
+  - apply NoDup_Permutation; [repeat constructor; simpl; intuition discriminate|apply seq_NoDup|].
+    intro x. simpl. intuition.
+  - vm_compute. repeat constructor; simpl; intuition discriminate.
+Qed.
